@@ -1,5 +1,5 @@
 """Property registry: which rules decide which property, and what each check claims."""
-import r_own, r_shrink, r_reach, r_layout, r_retain, r_num, r_index, r_growth, r_size, r_text, r_deleg, r_config, r_api
+import r_moves, r_own, r_shrink, r_reach, r_layout, r_retain, r_num, r_index, r_growth, r_size, r_text, r_deleg, r_config, r_api
 
 RULE_DOC = {
     "R1": "no buffer access through a handle after it gave up its reference",
@@ -44,6 +44,15 @@ RULE_DOC = {
     "C13-lands": "realloc returns Ok only after recording the requested capacity",
     "C11-lands": "realloc returns Ok only after recording the requested capacity",
     "ENGINE": "a rule could not be evaluated (fail closed)",
+    "T7-moves": "byte moves of push_str / insert_str / remove / pop and the copying constructors have the prescribed affine source, destination and count",
+    "C18-inplace": "Extend impls append each item to the target itself and never assign it as a whole",
+    "C11-wrap": "public wrappers pass their storage-layer operation on every path, argument unchanged",
+    "C12-wrap": "public wrappers pass their storage-layer operation on every path, argument unchanged",
+    "C13-wrap": "public wrappers pass their storage-layer operation on every path, argument unchanged",
+    "T8-wrap": "public wrappers pass their storage-layer operation on every path, argument unchanged",
+    "C16-items": "collecting impls append every element before requesting the next",
+    "C18-items": "collecting impls append every element before requesting the next",
+    "C12-lands": "realloc returns Ok only after recording the requested capacity",
     "FLOOR": "instance floor (fail closed)",
     "BUILD": "configuration builds",
     "unclassified": "construct the rule tables do not know",
@@ -63,7 +72,7 @@ def rules_C03(ctx):
 def rules_C04(ctx):
     ctx.take_ts(["R1", "P2", "P3", "P4", "P5", "unclassified", "solver"])
     # a write into a buffer other handles (threads) can read is a data race: writes require proved uniqueness
-    ctx.take_ts(["R-contract.Modifiable", "R-contract.Unique", "R-contract.realloc", "R-contract.set_len"])
+    ctx.take_ts(["R-contract.Modifiable", "R-contract.Unique", "R-contract.realloc", "R-contract.set_len", "R-contract.write"])
     # the free is ordered after every other owner's last access (acquire after the last decrement)
     ctx.take_ts(["R-contract.dealloc", "R-contract.released-last"])
     r_api.rule_send_sync(ctx)
@@ -79,7 +88,7 @@ def rules_C05(ctx):
 
 
 def rules_C02(ctx):
-    ctx.take_ts(["R-contract.Modifiable", "R-contract.Unique", "R-contract.realloc", "R-contract.set_len", "unclassified", "solver"])
+    ctx.take_ts(["R-contract.Modifiable", "R-contract.Unique", "R-contract.realloc", "R-contract.set_len", "R-contract.write", "unclassified", "solver"])
     # uniqueness probes license in-place writes only if the counter equals the number of handles:
     # the counter-balance rules are necessary conditions of isolation
     ctx.take_ts(["R2", "R3", "P1", "DUP"])
@@ -92,6 +101,7 @@ def rules_C13(ctx):
     r_shrink.rule_no_growth_in_shrink(ctx)
     r_shrink.rule_shrink_guards(ctx)
     r_shrink.rule_realloc_lands(ctx)
+    r_api.rule_wrappers_delegate(ctx, rule="C13-wrap", only=("try_shrink_to", "try_shrink_to_fit"))
     r_layout.rule_capacity_roots(ctx)
 
 
@@ -102,11 +112,15 @@ def rules_C11(ctx):
     r_layout.rule_reserve_post(ctx)
     r_layout.rule_layout_agreement(ctx)
     r_shrink.rule_realloc_lands(ctx, rule="C11-lands")
+    # the public reserve / with_capacity / appends reach the storage layer's operation on every path
+    r_api.rule_wrappers_delegate(ctx, rule="C11-wrap", only=("try_reserve", "try_with_capacity", "try_push_str", "try_push", "try_insert_str", "try_insert"))
 
 
 def rules_C18(ctx):
     r_own.rule_U1(ctx, include_panic=False, rule="U1")
     r_retain.rule_U2(ctx)
+    r_retain.rule_extend_inplace(ctx)
+    r_retain.rule_items_appended(ctx, rule="C18-items", traits=("core::iter::traits::collect::FromIterator", "core::iter::traits::collect::Extend"))
 
 
 def rules_C01(ctx):
@@ -114,12 +128,15 @@ def rules_C01(ctx):
     ctx.take_ts(["R-contract.kind="])
     # writes go only to exclusively owned storage: otherwise an edit of one handle changes what the
     # handles sharing its buffer read back
-    ctx.take_ts(["R-contract.Modifiable", "R-contract.Unique", "R-contract.realloc", "R-contract.set_len"])
+    ctx.take_ts(["R-contract.Modifiable", "R-contract.Unique", "R-contract.realloc", "R-contract.set_len", "R-contract.write"])
     r_text.rule_T3(ctx)
     r_text.rule_T4(ctx)
     r_text.rule_T5(ctx)
     # String::clone_from leaves the target equal to the source, whatever the two handles share
     r_reach.rule_clone_replaces(ctx, rule="T6-clone")
+    # the bytes moved by the mutators and copied by the constructors are the right ones (affine forms)
+    r_moves.rule_moves(ctx)
+    r_api.rule_wrappers_delegate(ctx, rule="T8-wrap")
 
 
 def rules_C06(ctx):
@@ -127,6 +144,8 @@ def rules_C06(ctx):
     r_size.rule_size_taint(ctx)
     r_size.rule_layout_checked(ctx)
     r_size.rule_room(ctx)
+    # reserve(additional) really provides len + additional before Ok (no inline result unless it fits)
+    r_layout.rule_reserve_post(ctx)
     ctx.take_ts(["R-erratomic", "R2"])
     r_layout.rule_null_checks(ctx)
 
@@ -140,6 +159,11 @@ def rules_C07(ctx):
 def rules_C12(ctx):
     r_growth.rule_formula(ctx)
     r_growth.rule_sites(ctx)
+    # the capacity the rule computed is the capacity allocated: realloc(n) records exactly n, the
+    # constructors allocate exactly what they are asked for (no padding on top of the rule)
+    r_shrink.rule_realloc_lands(ctx, rule="C12-lands")
+    r_layout.rule_capacity_roots(ctx)
+    r_api.rule_wrappers_delegate(ctx, rule="C12-wrap", only=("try_reserve", "try_push_str", "try_push", "try_insert_str", "try_insert"))
 
 
 def rules_C14(ctx):
@@ -159,6 +183,8 @@ def rules_C16(ctx):
     # the constructors hand the decoded text to the storage layer: its length must be storable for
     # every length (the checked Capacity / TextLen constructors and their bounds, per target)
     r_size.rule_checked_ctors(ctx)
+    # from_utf16_lossy collects through FromIterator<char>: every decoded char is appended
+    r_retain.rule_items_appended(ctx)
 
 
 def rules_C17(ctx):
@@ -184,6 +210,8 @@ def rules_C08(ctx):
     # to_lean_string on a LeanString is the shallow clone, whatever the storage
     r_num.rule_dispatch(ctx, want=["LeanString"])
     ctx.take_ts(["P1", "DUP"])
+    # dropping one copy leaves the other intact: only the last owner frees, after an acquire
+    ctx.take_ts(["P3", "P5", "R-contract.dealloc", "R-contract.released-last"])
 
 
 def rules_C09(ctx):
@@ -206,7 +234,7 @@ def rules_C10(ctx):
 
 PROPS = {
     "C01": {"rules": rules_C01, "level": "other",
-            "explanation": "Five structural necessary conditions of 'reads back what was written, whatever the storage' (the behavioural equivalence with String itself is a value-level statement and is NOT decided): T1 writer/reader agreement on the tag byte - compiler-evaluated TextLen::TAG / StaticBuffer::TAG last memory byte (target endianness) = LastByte::HeapMarker / StaticMarker discriminants, inline tag = len|0xC0 at byte MAX_INLINE_SIZE-1 in new/empty/set_len, is_heap_buffer/is_static_buffer summaries true exactly for their kind, len/as_bytes decode with the same constants, tag ordering text < inline < heap < static; T2 every storage view cast is taken under the matching kind guard (typestate); T3 in every body that takes a mutable view (push_str, insert_str, remove, retain, 10 integer writers) set_len or the publishing guard lies on every path from each write to return; T4 every InlineBuffer::new call site is dominated by a proof that the text fits; T5 InlineBuffer::set_len writes the tag byte only when len < MAX_INLINE_SIZE. T6 clone_from passes replace_inner(self, shallow clone of source) on every path (handles sharing a buffer or a static text can differ in length) and clone() is the shallow clone."},
+            "explanation": "Five structural necessary conditions of 'reads back what was written, whatever the storage' (the behavioural equivalence with String itself is a value-level statement and is NOT decided): T1 writer/reader agreement on the tag byte - compiler-evaluated TextLen::TAG / StaticBuffer::TAG last memory byte (target endianness) = LastByte::HeapMarker / StaticMarker discriminants, inline tag = len|0xC0 at byte MAX_INLINE_SIZE-1 in new/empty/set_len, is_heap_buffer/is_static_buffer summaries true exactly for their kind, len/as_bytes decode with the same constants, tag ordering text < inline < heap < static; T2 every storage view cast is taken under the matching kind guard (typestate); T3 in every body that takes a mutable view (push_str, insert_str, remove, retain, 10 integer writers) set_len or the publishing guard lies on every path from each write to return; T4 every InlineBuffer::new call site is dominated by a proof that the text fits; T5 InlineBuffer::set_len writes the tag byte only when len < MAX_INLINE_SIZE. T6 clone_from passes replace_inner(self, shallow clone of source) on every path (handles sharing a buffer or a static text can differ in length) and clone() is the shallow clone. T7 the bytes moved by push_str / insert_str / remove / pop and copied by the buffer constructors are the right ones: every write primitive (ptr::copy, copy_from_slice, copy_within, pointer-method forms, through private helpers and closures) is lifted to a symbolic move whose source offset, destination offset and byte count are affine forms over len(self), the index argument, len(text) and the removed char's width, compared by coefficient with the forms String's algorithm prescribes (off-by-one counts, shifted destinations, stale published lengths all change a form); the inline length decoding of Repr::len is evaluated for every byte an inline string can end in. T8 every public try_* method passes its storage-layer operation on every path with the caller's argument unchanged."},
     "C06": {"rules": rules_C06, "level": "other",
             "explanation": "Checked constructors: Capacity / TextLen / StaticBuffer values are built only inside their `new`, behind `size <= MAX_LEN` with MAX_LEN evaluated for the target (2^56-1 on 64-bit); with that bound the unchecked header+capacity sum of realloc cannot wrap (constant arithmetic; on 32-bit the ALLOC_LIMIT edge must dominate realloc). Size taint: values derived from the public capacity/additional/min_capacity parameters and from size_hint lower bounds, propagated through local calls, reach only checked_*/saturating_* operations and the bound-checked constructors - never raw +,*,<<,- or wrapping_*/unchecked_* calls. The layout computation is checked_add + Layout::from_size_align; allocator results are null-tested and map to Err; every Err exit is effect-free (R-erratomic, R2)."},
     "C07": {"rules": rules_C07, "level": "other",
